@@ -16,7 +16,8 @@ import KyupyVerif.Model.CircObjSub
 * `st:<spec>`                  `c = Circuit.__setstate__(spec)` (start from a given circuit)
 For these four the record starts with `1` or `0<reason>` (`n` node index out of range, `k` kinds, `s` self loop, `g` a pin
 assignment overwrites a line, `f` fork outputs of the result have a gap, `p` a substitution of `resolve` is not a
-well-formed use); the operation is applied also when the precondition is false; `<pre>;raise` = the model says the real
+well-formed use; `1d` = `substPre` holds but the structural condition `substStatic` does not; `0X` = `substStatic` holds
+and a pin guard fails, which theorem `substStatic_pre0` excludes); the operation is applied also when the precondition is false; `<pre>;raise` = the model says the real
 code raises (state unchanged).
 
 Answer: one record per operation, separated by ` # `:
@@ -115,7 +116,8 @@ def parseTok (s : String) : Option Tok :=
 
 def substReason (c : Circ) (i : Nat) (m : Circ) : String :=
   if !(c.nodes.contains i) then "0n" else if !(substKinds c i m) then "0k" else if !(noSelfLoop c i) then "0s"
-  else if !(substGuards c i m) then "0g" else if !(substPre c i m) then "0f" else "1"
+  else if !(substGuards c i m) then (if substStatic c i m then "0X" else "0g") else if !(substPre c i m) then "0f"
+  else if substStatic c i m then "1" else "1d"
 
 def preStr (c : Circ) : Op2 → String
   | .base op => if pre c op then "1" else "0"
